@@ -198,6 +198,47 @@ impl Stats {
     }
 }
 
+thread_local! {
+    /// location and message of the last panic on this thread (set by the hook installed in main)
+    pub static LAST_PANIC: RefCell<Option<(String, String)>> = const { RefCell::new(None) };
+}
+
+pub fn install_panic_hook() {
+    std::panic::set_hook(Box::new(|info| {
+        let loc = info.location().map(|l| format!("{}:{}", l.file(), l.line())).unwrap_or_default();
+        let msg = if let Some(s) = info.payload().downcast_ref::<&str>() {
+            s.to_string()
+        } else if let Some(s) = info.payload().downcast_ref::<String>() {
+            s.clone()
+        } else {
+            "panic".to_string()
+        };
+        LAST_PANIC.with(|p| *p.borrow_mut() = Some((loc, msg)));
+    }));
+}
+
+/// Runs the property, converting a panic into an outcome: a panic raised inside awslabs/tough
+/// source files is a violation (the library crashed on the generated input); a panic anywhere else
+/// is harness trouble (`inconclusive` + label), never a violation.
+pub fn guarded<C>(prop: &(dyn Fn(&C) -> Outcome + Sync + Send + '_), case: &C) -> Outcome {
+    match std::panic::catch_unwind(std::panic::AssertUnwindSafe(|| prop(case))) {
+        Ok(o) => o,
+        Err(_) => {
+            let (loc, msg) = LAST_PANIC.with(|p| p.borrow_mut().take()).unwrap_or_default();
+            let mut o = Outcome::new();
+            let in_repo = loc.starts_with("/repo/") || loc.starts_with("tough/src") || loc.starts_with("olpc-cjson/src") || loc.starts_with("src/") && false;
+            if in_repo {
+                o.fail(format!("panic inside awslabs/tough at {loc}: {msg}"));
+                o.label("panic-in-tough");
+            } else {
+                o.inconclusive = 1;
+                o.label(format!("HARNESS-PANIC at {loc}: {msg}"));
+            }
+            o
+        }
+    }
+}
+
 fn shard_seed(seed: u64, part: &str, shard: usize) -> [u8; 32] {
     // a fixed, documented mixing: SHA-256("verif" || seed || part || shard)
     let mut ctx = aws_lc_rs::digest::Context::new(&aws_lc_rs::digest::SHA256);
@@ -261,7 +302,7 @@ where
                             {
                                 return Ok(());
                             }
-                            let o = prop(&case);
+                            let o = guarded(prop.as_ref(), &case);
                             if !frozen.get() {
                                 stats.borrow_mut().record(&case, &o);
                             }
@@ -280,7 +321,7 @@ where
                             Ok(()) => {}
                             Err(TestError::Fail(reason, value)) => {
                                 // re-evaluate the shrunk case for the exact message
-                                let o = prop(&value);
+                                let o = guarded(prop.as_ref(), &value);
                                 let message = o.fail.unwrap_or_else(|| reason.message().to_string());
                                 let mut f = failure.lock().unwrap();
                                 if f.is_none() {
@@ -330,7 +371,7 @@ where
                             if i >= cases.len() {
                                 break;
                             }
-                            let o = prop(&cases[i]);
+                            let o = guarded(prop.as_ref(), &cases[i]);
                             stats.record(&cases[i], &o);
                             if let Some(msg) = o.fail {
                                 let mut ff = first_fail.lock().unwrap();
@@ -363,6 +404,9 @@ where
             trouble = Some(format!("part {name}: proptest aborted: {}", f.message));
             failure = None;
         }
+    }
+    if let Some((l, _)) = stats.labels.iter().find(|(l, _)| l.starts_with("HARNESS-PANIC")) {
+        trouble = Some(format!("part {name}: {l}"));
     }
     if failure.is_none() && trouble.is_none() && !ctx.stop.load(Ordering::Relaxed) {
         for (label, min) in &spec.require {
